@@ -4,6 +4,7 @@ use serde_json::Value;
 pub mod c01_handlers;
 pub mod c02_durable;
 pub mod c03_2pc;
+pub mod c03_force;
 pub mod c04_relq;
 pub mod c05_graph;
 pub mod c06_search;
@@ -29,6 +30,7 @@ pub fn all() -> Vec<(&'static str, RunFn, ReplayFn)> {
         ("c01_handlers", c01_handlers::run, c01_handlers::replay),
         ("c02_durable", c02_durable::run, c02_durable::replay),
         ("c03_2pc", c03_2pc::run, c03_2pc::replay),
+        ("c03_force", c03_force::run, c03_force::replay),
         ("c04_relq", c04_relq::run, c04_relq::replay),
         ("c05_graph", c05_graph::run, c05_graph::replay),
         ("c06_search", c06_search::run, c06_search::replay),
